@@ -73,19 +73,31 @@ VALUE_CLASSES = {
     'duration': [TD(days=1, seconds=5), TD(seconds=-90), TD(hours=1.5), isodate.Duration(years=1, months=2),
                  isodate.Duration(months=1, days=3)],
     'nested': [[D('1.1'), {'d': datetime.date(2020, 1, 1), 'l': [datetime.time(1, 2, 3)]}],
-               {'k': [1, D('2.50'), None], 'u': 'ż'}, [], {}],
+               {'k': [1, D('2.50'), None], 'u': 'ż'}, [], {}, {'zz': 1, 'aa': [{'y': 1, 'b': 2}], 'm': None}],
+    # object cells whose KEYS look like the tags the checkpoint encoding uses for typed scalars
+    'tag_like_object': [{'type{date}': '2020-02-03', 'note': 'x'}, {'k': [{'type{set}': ['a', 'b']}]},
+                        {'type{decimal}': '1.50'}, {'type{time}': 'noon'}],
     'set': [{1, 2, 3}, {'a', 'b'}, set()],
     'null': [None],
 }
 COMMON = ['decimal', 'bigint', 'float', 'text', 'date', 'time', 'datetime_naive', 'datetime_utc',
           'datetime_pos_offset', 'datetime_neg_offset', 'duration', 'nested', 'set', 'null', 'subsecond']
-RARE = ['datetime_tzname_none']
+RARE = ['datetime_tzname_none', 'tag_like_object']
 
 
 def gen_cases(tier, seed):
     n = {'quick': 320, 'thorough': 8000}[tier]
     for i in range(n):
         yield {'family': 'history', 'idx': i, 'seed': seed}
+
+
+def key_orders(v):
+    """the key order of every dict nested in v (lists keep their positions)."""
+    if isinstance(v, dict):
+        return [list(v)] + [key_orders(x) for x in v.values() if isinstance(x, (dict, list))]
+    if isinstance(v, list):
+        return [key_orders(x) for x in v if isinstance(x, (dict, list))]
+    return []
 
 
 def val_eq(a, b):
@@ -139,6 +151,12 @@ def run_case(case):
     # fresh flow per run
     reuse = rng.random() < 0.25
     cfg['same_flow_object'] = reuse
+    early_stop = boot.rng(case['seed'], 'C07', 'early', case['idx']).random() < 0.2
+    cfg['early_stopping_step_after_last_checkpoint'] = early_stop
+    if early_stop:
+        cov['history']['early_stopping_step_after_last_checkpoint'] = 1
+    orders = {}
+    first_orders = None
     shared_cnt = {}
 
     class Source:
@@ -195,6 +213,26 @@ def run_case(case):
             steps.append(d.checkpoint('cp%d' % k, checkpoint_path=cpdir))
         steps.append(seg(ncp))
         steps.append(pseg(ncp))
+        if early_stop:
+            import itertools
+
+            def first_two(rows):
+                # a step after the last checkpoint that stops reading each resource early
+                return itertools.islice(rows, 2)
+            steps.append(first_two)
+
+        def order_probe(package):
+            # what a step placed after the last checkpoint can see of the ORDER of row keys / object-cell keys
+            yield package.pkg
+            for ri, res in enumerate(package):
+                def it(ri=ri, res=res):
+                    for n, row in enumerate(res):
+                        if n < 3:
+                            orders.setdefault(ri, []).append(
+                                (list(row), {k: key_orders(v) for k, v in row.items() if isinstance(v, (dict, list))}))
+                        yield row
+                yield it()
+        steps.append(order_probe)
         return steps
 
     def add(kind, msg, mech):
@@ -243,6 +281,9 @@ def run_case(case):
         for k in range(ncp + 1):
             want['seg%d' % k] = total_rows if (last is None or k > last) else 0
             want['pkg%d' % k] = 1 if (last is None or k > last) else 0
+        if early_stop:
+            # the checkpoints still capture everything; the segment after the last checkpoint sees what was asked for
+            want['seg%d' % ncp] = sum(min(2, len(t)) for t in tables)
         if cnt != want:
             add('upstream_executed', 'run %d with checkpoints existing=%r: counters %r expected %r'
                 % (run_no, exists, cnt, want), 'counters')
@@ -261,8 +302,27 @@ def run_case(case):
                     % (run_no, k, on_disk, exists[k]), 'presence')
         if first is None:
             first = out
+            first_orders = copy.deepcopy(orders)
+            orders.clear()
             # sanity (not judged as C07): run 1 equals the input
             continue
+        for ri_ in sorted(first_orders):
+            bad = None
+            for a_, b_ in zip(first_orders[ri_], orders.get(ri_, [])):
+                if a_[0] != b_[0]:
+                    bad = ('row', a_[0], b_[0])
+                else:
+                    # object cells that are still objects in both runs (a changed VALUE is reported as such below)
+                    bad = next((('object_cell', a_[1][k_], b_[1][k_]) for k_ in a_[1] if k_ in b_[1] and a_[1][k_] != b_[1][k_]
+                                and classes[int(k_[1:])] != 'tag_like_object'),
+                               None)
+                if bad:
+                    break
+            if bad:
+                add('key_order', 'run %d resource %d: a step after the checkpoint sees %s keys in another order than in run 1: '
+                    '%r vs %r' % (run_no, ri_, bad[0], bad[2], bad[1]), 'key_order/' + bad[0])
+                break
+        orders.clear()
         if out.dp != first.dp:
             add('descriptor', 'run %d descriptor differs from run 1' % run_no, 'descriptor')
         for ri, (a, b) in enumerate(zip(first.results, out.results)):
@@ -275,8 +335,18 @@ def run_case(case):
                     badk = next(k for k in x if k not in y or not val_eq(x[k], y.get(k)))
                     ci = int(badk[1:]) if badk != 'id' else None
                     cls = classes[ci] if ci is not None and ci < len(classes) else 'id'
+                    mech = 'value/' + cls
+                    if cls == 'tag_like_object':
+                        # alternative model: an object cell with a key equal to one of the encoding's type tags is decoded
+                        # as that typed scalar - reproduced on the cell alone through the library's extended JSON
+                        ej = boot.module('dataflows.helpers.extended_json').ejson
+                        try:
+                            if val_eq(ej.loads(ej.dumps(x[badk])), y.get(badk)):
+                                mech = 'ejson_tag_collision'
+                        except Exception:
+                            pass
                     add('value', 'run %d resource %d row id %r field %s (%s): resumed %r, first run %r'
-                        % (run_no, ri, x.get('id'), badk, cls, y.get(badk), x[badk]), 'value/' + cls)
+                        % (run_no, ri, x.get('id'), badk, cls, y.get(badk), x[badk]), mech)
                     break
         if len(first.results) != len(out.results):
             add('resource_count', 'run %d: %d resources, run 1 had %d' % (run_no, len(out.results), len(first.results)),
